@@ -6,10 +6,6 @@ V = os.path.dirname(os.path.dirname(os.path.abspath(__file__)))
 WHY = {
  "C01-m2": "by design: the per-step error (<= 5e-5 relative on one slow eigenvalue) is inside the property's conditioning allowance; it shows only after ~10^4 steps, the kernels explore 3-4",
  "C04-m1": "C04 does not claim complex matrices; the change is caught by C11 (sparse read of a big-endian complex matrix)",
- "C04-m2": "scipy.sparse inputs are outside the claim (SciPy's COO internals cannot carry symbolic values)",
- "C06-m1": "cbcheck (effective-mass bookkeeping on eigh/pinv of concrete models, report printing) is outside the claim",
- "C14-m1": "spherical branch (atan2/sin/cos of symbolic values) is outside the claim",
- "C18-m3": "locate.mat_intersect searches byte views of concrete arrays; no symbolic encoding in reach",
 }
 
 
